@@ -202,9 +202,13 @@ def parseScenario (text : String) : Option Scenario :=
 
 /-! ### resolution against the ghost name tables -/
 
+/-- A named system whose `SystemCommandStorage` insertion is still queued: Bevy's `Commands::spawn` panics if such an
+    entity dies before its insert command is applied, so no scripted action can name it (harness and model alike). -/
+def pendingSystem (s : St) (e : Nat) : Bool := s.sysNames.contains e && s.alive e && (s.storage e).isNone
+
 def resolveRef (s : St) : Ref → Option Nat
   | .e k => s.entNames[k]?
-  | .s k => s.sysNames[k]?
+  | .s k => (s.sysNames[k]?).bind (fun e => if pendingSystem s e then none else some e)
 
 def resolveTrig (s : St) : STrig → Option Trig
   | .eIns r ty => (resolveRef s r).map (Trig.eIns · ty)
@@ -220,10 +224,6 @@ def resolveTrig (s : St) : STrig → Option Trig
   | .dsp r => (resolveRef s r).map Trig.dsp
 
 def resolveTrigs (s : St) (ts : List STrig) : Option (List Trig) := ts.mapM (resolveTrig s)
-
-/-- A named system whose `SystemCommandStorage` insertion is still queued: Bevy's `Commands::spawn` panics if such an
-    entity is despawned before its insert command is applied, so the harness (and this resolution) skips despawning it. -/
-def pendingSystem (s : St) (e : Nat) : Bool := s.sysNames.contains e && s.alive e && (s.storage e).isNone
 
 /-- Resolves a scripted action; `none` = it names something that does not exist (yet): the action is skipped. -/
 def resolveAct (sc : Scenario) (s : St) : SAct → Option Act
